@@ -7,6 +7,8 @@
 #include <tao/pegtl/contrib/uint32.hpp>
 #include <tao/pegtl/contrib/utf16.hpp>
 #include <tao/pegtl/contrib/utf32.hpp>
+#include <tao/pegtl/contrib/rep_one_min_max.hpp>
+#include <tao/pegtl/contrib/raw_string.hpp>
 #include <stdexcept>
 #include <string>
 using namespace tao::pegtl;
@@ -156,6 +158,22 @@ C07_OP( w_rewind, OP_REWIND )
 #ifndef C07_REWIND
 #define C07_REWIND required   // grammars that discard run like tao::pegtl::parse() does by default: optional (no rewind guard is live across the discard)
 #endif
+
+// the opening bracket of raw_string<> as a rule of its own (library internal; a whole literal of level >= 1 needs a 6-byte buffer, which is beyond reach:
+// no verdict / out of memory at capacity 6): the marker count asks for look-ahead byte by byte, in.size( i + 1 )
+struct raw_open
+{
+   using rule_t = raw_open;
+   using subs_t = empty_list;
+
+   template< apply_mode A, rewind_mode M, template< typename... > class Action, template< typename... > class Control, typename ParseInput, typename... States >
+   [[nodiscard]] static bool match( ParseInput& in, States&&... /*unused*/ )
+   {
+      std::size_t marker_size = 0;
+      auto m = in.template auto_rewind< M >();
+      return m( internal::raw_string_open< '[', '=' >::template match< A, M, Action, Control >( in, marker_size ) );
+   }
+};
 
 struct A1 : one< 'a' > {};   // rules that carry a logging action
 struct B1 : one< 'b' > {};
